@@ -162,6 +162,47 @@ def run(tier):
             return resolve_strings(fn, rd, bid, idx, e0["b"], depth + 1)
         return None
 
+    def resolve_ints(fn, rd, bid, idx, e, depth=0):
+        """set of integer values an expression may denote (literal, never-written global with initialiser, local), or None"""
+        e0 = strip(e)
+        while e0 is not None and e0.get("k") == "cast":
+            e0 = strip(e0["e"])
+        if e0 is None:
+            return None
+        if e0.get("k") == "int":
+            return {e0["v"]}
+        if e0.get("k") == "var" and "id" not in e0:
+            gv = prog.global_var(e0["n"], required=False)
+            if gv is None or "init" not in gv:
+                return None
+            for q, ws in cg.direct_writes.items():
+                if ("G", e0["n"]) in ws:
+                    return None
+            return resolve_ints(fn, rd, bid, idx, gv["init"], depth + 1)
+        if e0.get("k") == "var" and "id" in e0 and depth < 3:
+            out = set()
+            ds = cu.defs_at(fn, rd, bid, idx, e0["id"])
+            if not ds:
+                return None
+            for d in ds:
+                if d[2] not in ("assign", "decl") or d[3] is None:
+                    return None
+                r = resolve_ints(fn, rd, d[0], d[1], d[3], depth + 1)
+                if r is None:
+                    return None
+                out |= r
+            return out
+        if e0.get("k") == "cond":
+            a = resolve_ints(fn, rd, bid, idx, e0.get("a"), depth + 1)
+            b = resolve_ints(fn, rd, bid, idx, e0.get("b"), depth + 1)
+            if a is None or b is None:
+                return None
+            return a | b
+        if e0.get("k") == "call" and e0.get("fn") in ("strlen", "__builtin_strlen", "Strlen") and e0.get("a"):
+            sv = resolve_strings(fn, rd, bid, idx, e0["a"][0], depth + 1)
+            return None if sv is None else set(len(v) for v in sv)
+        return None
+
     def out_field(e):
         e = strip(e)
         while e is not None:
@@ -207,9 +248,12 @@ def run(tier):
                 want = labels["tls13_output_fields"].get(of)
                 if want is not None and vals != {want}:
                     problems.append('secret %s is derived with label %s, RFC 8446 says "%s"' % (of, sorted(vals), want))
-                ll = strip(args[lli])
-                if ll is not None and ll.get("k") == "int" and len(vals) == 1 and ll["v"] != len(next(iter(vals))):
-                    problems.append("label length %d does not match \"%s\"" % (ll["v"], next(iter(vals))))
+                lens = resolve_ints(fn, rd, bid, idx, args[lli])
+                if lens is None:
+                    problems.append("label length argument %s cannot be resolved to constants" % pp(strip(args[lli]))[:30])
+                elif lens != set(len(v) for v in vals):
+                    problems.append("label length %s does not match the length of %s (a longer length appends the terminating "
+                                    "NUL or stray bytes to the HkdfLabel, a shorter one truncates it)" % (sorted(lens), sorted(vals)))
             f_ = None
             if problems:
                 f_ = Finding(PROP, "C10.R2", fn.name, "HKDF label for %s" % (of or pp(strip(args[oi]))[:20]),
@@ -245,9 +289,9 @@ def run(tier):
                 if v not in allowed12:
                     problems.append('"%s" is not an RFC 5246 / 7627 PRF label' % v)
                 seen12.add(v)
-            ll = strip(call["a"][2])
-            if ll is not None and ll.get("k") == "int" and any(len(v) != ll["v"] for v in vals):
-                problems.append("copied length %d differs from the label length" % ll["v"])
+            lens = resolve_ints(fn, rd, bid, idx, call["a"][2])
+            if lens is not None and lens != set(len(v) for v in vals):
+                problems.append("copied length %s differs from the label length" % sorted(lens))
             f_ = None
             if problems:
                 f_ = Finding(PROP, "C10.R2", fn.name, "PRF label %s" % sorted(vals)[0][:20],
